@@ -216,6 +216,11 @@ async def _main(sim, sc, out):
         if a.get("refused"):
             if during:
                 V.append(violation("refused-while-running", f"C20/mem/connection-refused-while-run-in-progress/{a['kind']}"))
+            elif t_sig + 20_000 < a["at"] < run_state["returned"] - 1_300_000:
+                # the graceful shutdown is part of the run: executions are still in progress, the port stays open (the server
+                # itself is stopped during the last second before run() returns)
+                V.append(violation("refused-while-running", f"C20/mem/connection-refused-during-graceful-shutdown/{a['kind']}",
+                                   after_stop_us=a["at"] - t_sig, before_return_us=run_state["returned"] - a["at"]))
             continue
         if outside:
             V.append(violation("port-open-outside-run", f"C20/mem/connect-succeeded-{'before' if a['at'] < run_state['started'] else 'after'}-run"))
